@@ -162,6 +162,11 @@ def getattr_lib(M, interp, obj, name, node):
     raise AnalysisError(f'attribute {name} of {type(obj).__name__} not modelled', node, where=_where(interp, node))
 
 
+def is_narrow_float(d):
+    name = getattr(d, 'path', d)
+    return isinstance(name, str) and name.split('.')[-1] in ('float32', 'float16', 'single', 'half', 'f4', 'f2', '<f4', '<f2')
+
+
 def _pandas_cow():
     """library fact keyed to the installed pandas: from 3.0 on Copy-on-Write is always on and Series / Index hand out read-only arrays"""
     try:
@@ -503,7 +508,12 @@ def register(M):
             if v.kind == 'ma':
                 interp.event('mask-dropped', node=node, any_masked=any(m is not False for m in v.masks()))
             out = Vec.fresh([El(e.d, False) for e in v.els()], kind='nd', dtype=v.dtype, unit=v.unit)
+            out.narrow = getattr(v, 'narrow', False)
             return out
+        if isinstance(v, Vec2):
+            if v.kind == 'ma':
+                interp.event('mask-dropped', node=node, any_masked=any(m is not False for r in v.rows for m in r.masks()))
+            return Vec2([to_array(interp, r, node) for r in v.rows], v.width, 'nd', v.dtype)
         if isinstance(v, (list, tuple)):
             return from_sequence(interp, v, node)
         if isinstance(v, GenResult):
@@ -522,6 +532,9 @@ def register(M):
         code, unit = parse_dtype(interp, dtype, node)
         if isinstance(v, Masked):
             return MASKED
+        if isinstance(v, Vec2):
+            rows = [astype(interp, r, dtype, node) for r in v.rows]
+            return Vec2(rows, v.width, v.kind, rows[0].dtype if rows else code)
         is_vec = isinstance(v, Vec)
         els = v.els() if is_vec else [El(v.d, False)]
         src, sunit = v.dtype, v.unit
@@ -607,6 +620,8 @@ def register(M):
             if kind == 'dtindex' and code != 'M8':
                 kind = 'index'
             res = v.like(out, dtype=code, unit=unit if code in ('m8', 'M8') else None, kind=kind)
+            # an explicit cast decides the width: float64 widens, float32 / float16 narrow
+            res.narrow = code == 'f8' and is_narrow_float(dtype)
             return res
         return Sc(out[0].d, code, unit if code in ('m8', 'M8') else None)
 
@@ -697,6 +712,7 @@ def register(M):
             out.append(El(e.d, m_or(e.m, bad)))
         res = Vec.fresh(out, kind='ma', dtype=v.dtype, unit=v.unit)
         res.tz = v.tz
+        res.narrow = getattr(v, 'narrow', False)
         copy = kw.get('copy', args[1] if len(args) > 1 else True)
         if copy is False and isinstance(args[0], Vec) and args[0].kind in ('nd', 'ma'):
             # copy=False: the masked array wraps the caller's data buffer - a store into it is a store into the argument
@@ -861,8 +877,18 @@ def register(M):
             if len(v) != 1:
                 raise AbsRaise(ExcVal('ValueError', (f'cannot reshape array of size {len(v)} into shape ()',)), node)
             raise AnalysisError('reshape to 0-d not modelled', node)
+        if len(dims) == 2:
+            r_, c_ = dims
+            if r_ == -1 and c_ > 0 and len(v) % c_ == 0:
+                r_ = len(v) // c_
+            if c_ == -1 and r_ > 0 and len(v) % r_ == 0:
+                c_ = len(v) // r_
+            if r_ < 0 or c_ < 0 or r_ * c_ != len(v):
+                raise AbsRaise(ExcVal('ValueError', (f'cannot reshape array of size {len(v)} into shape {tuple(dims)}',)), node)
+            # C order: row i is the view of elements i*c .. (i+1)*c-1 (shares the buffer, like numpy)
+            return Vec2([v.view(list(v.idx[i * c_:(i + 1) * c_])) for i in range(r_)], c_, v.kind, v.dtype)
         if len(dims) != 1:
-            raise AnalysisError('reshape to 2-D not modelled', node)
+            raise AnalysisError('reshape to more than two dimensions not modelled', node)
         if dims[0] != -1 and dims[0] != len(v):
             raise AbsRaise(ExcVal('ValueError', (f'cannot reshape array of size {len(v)} into shape ({dims[0]},)',)), node)
         return v.view(list(v.idx))
@@ -1247,6 +1273,8 @@ def register(M):
         v = args[0]
         if isinstance(v, Vec):
             return (len(v),)
+        if isinstance(v, Vec2):
+            return v.shape
         if isinstance(v, (list, tuple)):
             if any(isinstance(x, (list, tuple, Vec)) for x in v):
                 raise AnalysisError('np.shape of nested sequence', node)
